@@ -26,6 +26,11 @@ def main():
         except ValueError:
             seed = 20260925
     pid = args.pid.upper()
+    if os.environ.get("VERIF_DUMP_AFTER"):
+        # debugging aid: dump all thread stacks after N seconds and exit
+        import faulthandler
+        faulthandler.dump_traceback_later(
+            int(os.environ["VERIF_DUMP_AFTER"]), exit=True)
     warnings.simplefilter("ignore")
     try:
         mod = importlib.import_module("checks.%s" % pid.lower())
